@@ -803,7 +803,7 @@ func genHistory(r *RNG, o histOpts, cfg string) *hist {
 				h.units = append(h.units, hUnit{kind: "ue", typ: r.Pick(3, 14, 26, 28, 36, 37, 38, 39, 40, 160, 255), body: r.Bytes(r.Intn(20))})
 			case 5:
 				st := genStmt(r, "begin", o, ts)
-				st.sql = r.Pickstr("SAVEPOINT a", "flush tables", "GRANT x", "analyze t", "xa start 'a'", "") // unknown statements
+				st.sql = r.Pickstr("SAVEPOINT a", "flush tables", "GRANT x", "analyze t", "xa start 'a'", "/* begin of nightly purge */ flush tables", "/* commit plan */ analyze t", "/* rollback plan: keep */ GRANT x", "/*!40000 ALTER TABLE t DISABLE KEYS */", "-- begin", "# commit", "(begin)", "beginx", "commits", "rollbacks now", "") // unknown statements
 				st.cat = 0
 				h.units = append(h.units, hUnit{kind: "ust", stmt: st})
 			}
